@@ -100,6 +100,36 @@ func runC04(c *Ctx) {
 			}
 			key := funcKey(caller)
 			why, ok := allowed[key]
+			if !ok && !caller.Object().Exported() {
+				// an unexported helper split off one of the reviewed originators: every static caller of it (up to two
+				// levels) is a reviewed originator, and nothing takes its address
+				up, all := []*ssa.Function{caller}, true
+				via := ""
+				for depth := 0; depth < 2 && all && len(up) > 0; depth++ {
+					var next []*ssa.Function
+					for _, f := range up {
+						sites := p.CallSites(f)
+						if len(sites) == 0 || p.addressTaken(f) {
+							all = false
+							break
+						}
+						for _, s := range sites {
+							pc := rootFunc(s.Parent())
+							if w, isAllowed := allowed[funcKey(pc)]; isAllowed {
+								via = funcKey(pc) + " (" + w + ")"
+							} else if pc.Object() != nil && !pc.Object().Exported() {
+								next = append(next, pc)
+							} else {
+								all = false
+							}
+						}
+					}
+					up = next
+				}
+				if all && len(up) == 0 && via != "" {
+					why, ok = "helper called only from "+via, true
+				}
+			}
 			c.Check(ok, "O1", "CALLERS", key+": may call Statement."+target.Name(), instrPos(cs), why, "a new originator of placements: "+key+" calls Statement."+target.Name()+" and is not known to be reached only behind FittingNode")
 		}
 	}
